@@ -164,19 +164,11 @@ fn enum_type<'a>(input: &mut &'a [u8]) -> ModalResult<Type<'a>, InputError<&'a [
 }
 
 /// Parse an inline type (struct or enum).
-/// Determines if it's a struct by looking for ':' character.
+/// It is an enum if the parenthesised list holds bare names only and a struct otherwise. This is
+/// decided by parsing, not by searching the raw text for a ':' (which would also see comments
+/// and nested types, and does not even require the text to start with a parenthesis).
 fn inline_type<'a>(input: &mut &'a [u8]) -> ModalResult<Type<'a>, InputError<&'a [u8]>> {
-    // Look ahead to see if this contains a colon (indicating struct)
-    if let Some(pos) = input.iter().position(|&b| b == b')') {
-        let content = &input[1..pos]; // Skip opening paren
-        if content.contains(&b':') {
-            struct_type(input)
-        } else {
-            enum_type(input)
-        }
-    } else {
-        Err(ErrMode::Backtrack(ParserError::from_input(input)))
-    }
+    alt((enum_type, struct_type)).parse_next(input)
 }
 
 /// Parse an element type (primitive, custom, or inline).
